@@ -14,7 +14,7 @@ import numpy as np
 
 import core
 
-PROOF_MODULES = ["UnytProofs.C08", "UnytProofs.C08Tab", "UnytProofs.C08Tab2", "UnytProofs.C08Tab3", "UnytProofs.C08Tab4"]
+PROOF_MODULES = ["UnytProofs.C08", "UnytProofs.C08Seq", "UnytProofs.C08Tab", "UnytProofs.C08Tab2", "UnytProofs.C08Tab3", "UnytProofs.C08Tab4"]
 
 # --------------------------------------------------------------------------------------
 # the independent reference (also embedded verbatim in every replay file)
@@ -541,6 +541,141 @@ def run(tier, seed):
             except Exception:  # noqa: BLE001
                 pass
 
+
+    # ---- Python sequences (list / tuple) of quantities as operands: _coerce_iterable_units -------
+    # unyt_array([q0, q1, ...]) and BOTH operands of every binary ufunc accept a list/tuple of
+    # quantities in different units, unified to the unit of the first element.  All ordered pairs
+    # (array unit, first unit of the sequence); the second element cycles through the units of the
+    # first element's kind, the third through all units.
+    SEQ_COERCE = [("list", "r = unyt_array(b)"), ("tuple", "r = unyt_array(tuple(b))"), ("arrays", "r = unyt_array([unyt_array([q.d, q.d], q.units) for q in b])")]
+    SEQ_ADD = [("right", "operator", "r = a + b"), ("right", "ufunc-tuple", "r = np.add(a, tuple(b))"), ("right", "inplace", "r = a.copy(); r += b"),
+               ("right", "out", "r = a.copy(); np.add(a, b, out=r)"), ("left", "operator", "r = b + a"), ("left", "ufunc", "r = np.add(b, a)")]
+    SEQ_SUB = [("right", "operator", "r = a - b"), ("right", "ufunc-tuple", "r = np.subtract(a, tuple(b))"), ("right", "inplace", "r = a.copy(); r -= b"),
+               ("right", "out", "r = a.copy(); np.subtract(a, b, out=r)"), ("left", "operator", "r = b - a"), ("left", "ufunc", "r = np.subtract(b, a)")]
+    SEQ_CMP = [("right", "lt", "r = a < b", "lt"), ("right", "np.greater_equal", "r = np.greater_equal(a, tuple(b))", "ge"), ("right", "eq", "r = a == b", "eq"),
+               ("left", "np.less", "r = np.less(b, a)", "lt"), ("left", "np.not_equal", "r = np.not_equal(tuple(b), a)", "ne")]
+    by_kind = {"point": [u for u in units if u.kind == "point"], "diff": [u for u in units if u.kind == "diff"]}
+    nseq = 0
+    for i0, u0 in enumerate(units):
+        for i1, uf in enumerate(units):
+            nseq += 1
+            same = by_kind[uf.kind]
+            u2 = same[(i0 + 3 * i1) % len(same)]
+            u3 = units[(5 * i0 + i1 + seed) % len(units)]
+            sus = [uf, u2, u3]
+            xs0 = readings(rng, 3)
+            ys = readings(rng, 3)
+            b_src = "[" + ", ".join(f"unyt_quantity({y!r}, {u.spelling!r})" for u, y in zip(sus, ys)) + "]"
+            a_src = mk_src("a", xs0, u0.spelling)
+            src = guarded(f"a = {a_src}\nb = {b_src}\n")
+            mkb = lambda: [unyt_quantity(y, u.spelling) for u, y in zip(sus, ys)]  # noqa: E731
+            claim = [i for i, u in enumerate(sus) if u.kind == uf.kind]  # elements the arithmetic oracle speaks about
+            chk.count(f"seq:{u0.kind}-{uf.kind}")
+            seqwire = ",".join(u.wire for u in sus) + "\t" + ",".join(str(f2b(y)) for y in ys)
+            # -- unification itself (the conversion clause): every reading marks the same temperature as its element
+            if i0 == i1 or (i0 + i1) % 6 == 0:  # the array unit plays no role here: a sixth of the pairs is enough
+                outcomes = {}
+                for fname, code in SEQ_COERCE:
+                    ns = {"b": mkb(), "np": np, "unyt_array": unyt_array}
+                    try:
+                        exec(code, ns)
+                        res = ("ok", ns["r"])
+                    except Exception as e:  # noqa: BLE001
+                        res = ("err", core.exc_name(e))
+                    chk.case(("seq-coerce", tuple(u.name for u in sus), fname))
+                    rep_n = 2 if fname == "arrays" else 1
+                    if res[0] == "ok":
+                        r = res[1]
+                        label = repr(getattr(r, "units", None))
+                        vs = vals(np.asarray(r).T) if fname == "arrays" else vals(r)
+                        outcomes[fname] = ("ok", label, vs[:3])
+                        for i, (u, y) in enumerate(zip(sus, ys)):
+                            bad = label != uf.name
+                            want = None
+                            if not bad:
+                                want = t_reading("point", label, t_abs(u.name, y))
+                                sc = abs(y * float(t_size(u.name) / t_size(label))) + abs(float(t_abs(u.name, 0) / t_size(label))) + abs(float(t_abs(label, 0) / t_size(label)))
+                                bad = any(not t_near(v, want, sc) for v in vs[i::3][:rep_n])
+                            if bad:
+                                chk.fail(f"wrong-value|coerce|{uf.shape}|{u.shape}",
+                                         f"{code.split('= ', 1)[1]} with b = {b_src}: element {i} became {vs[i]} [{label}]; the affine map to {uf.name} gives {None if want is None else float(want)}",
+                                         {"python": snippet(guarded(f"b = {b_src}\n") + f"{code}\n"
+                                                            f"assert repr(r.units) == {uf.name!r}, r\n"
+                                                            f"vs = [float(v) for v in np.asarray(r){'.T' if fname == 'arrays' else ''}.ravel()]\n"
+                                                            f"for i, (n, y) in enumerate({[(u.name, y) for u, y in zip(sus, ys)]!r}):\n"
+                                                            f"    want = t_reading('point', {uf.name!r}, t_abs(n, y))\n"
+                                                            f"    sc = abs(y * float(t_size(n) / t_size({uf.name!r}))) + abs(float(t_abs(n, 0) / t_size({uf.name!r}))) + abs(float(t_abs({uf.name!r}, 0) / t_size({uf.name!r})))\n"
+                                                            f"    assert t_near(vs[i], want, sc), (i, r, float(want))\n"), "form": fname})
+                                break
+                    else:
+                        outcomes[fname] = res
+                ask(f"c08.coerce\t{seqwire}", ("coerce", sus, ys, outcomes))
+            # -- additive forms with the sequence on either side
+            mixed_r = t_different_offset_scales(u0.name, uf.name)
+            for op, forms, opc in (("add", SEQ_ADD, "c08.seqadd"), ("sub", SEQ_SUB, "c08.seqsub")):
+                outcomes = {"left": {}, "right": {}}
+                for side, fname, code in forms:
+                    res = run_form(code, mk("a", xs0, u0.spelling), mkb())
+                    chk.case(("seq", op, side, fname, u0.name, tuple(u.name for u in sus)))
+                    body = f"def f():\n    {code.replace('; ', chr(10) + '    ')}\n    return r\nbad, r = raises(f)\n"
+                    if res[0] == "ok":
+                        r = res[1]
+                        label = repr(getattr(r, "units", None))
+                        vs = vals(r)
+                        outcomes[side][fname] = ("ok", label, vs)
+                        if mixed_r:
+                            chk.fail(f"no-refusal|seq-{op}|{u0.shape}|{uf.shape}",
+                                     f"{code} with a in {u0.spelling} and b = {b_src} (two different offset scales) returned {r!r}",
+                                     {"python": snippet(src + RAISES_SRC + body + "assert bad, ('two different offset scales combined without an error', r)\n"), "form": fname})
+                            continue
+                        for i in claim:
+                            u = sus[i]
+                            args = (op, u0.name, [xs0[i]], u.name, [ys[i]]) if side == "right" else (op, u.name, [ys[i]], u0.name, [xs0[i]])
+                            try:
+                                msg = t_check_additive(*args, label, [vs[i]]) if len(vs) == 3 else f"{len(vs)} results for 3 elements"
+                            except ValueError as e:
+                                msg = f"result labelled {label}: {e}"
+                            if msg:
+                                chk.fail(f"wrong-value|seq-{op}|{side}|{u0.shape}|{uf.shape}|{u.shape}", f"{code} with a = {a_src}, b = {b_src}: element {i}: {msg}",
+                                         {"python": snippet(src + RAISES_SRC + body + "if not bad:\n    vs = [float(v) for v in np.asarray(r).ravel()]\n"
+                                                            f"    m = t_check_additive(*{args!r}, repr(r.units), [vs[{i}]])\n    assert m is None, m\n"), "form": fname})
+                                break
+                    else:
+                        outcomes[side][fname] = res
+                for side in ("right", "left"):
+                    ask(f"{opc}\t{side}\t{u0.wire}\t" + ",".join(str(f2b(x)) for x in xs0) + f"\t{seqwire}", ("seqbin", op, side, u0, sus, xs0, ys, outcomes[side]))
+            # -- comparisons
+            outcomes = {"left": {}, "right": {}}
+            for side, fname, code, pyop in SEQ_CMP:
+                res = run_form(code, mk("a", xs0, u0.spelling), mkb())
+                chk.case(("seq-cmp", side, fname, u0.name, tuple(u.name for u in sus)))
+                body = f"def f():\n    {code}\n    return r\nbad, r = raises(f)\n"
+                if res[0] == "ok":
+                    got = [bool(x) for x in np.asarray(res[1]).ravel()]
+                    outcomes[side][fname] = ("ok", pyop, got)
+                    if mixed_r:
+                        chk.fail(f"no-refusal|seq-compare|{u0.shape}|{uf.shape}", f"{code} with a in {u0.spelling} and b = {b_src} (two different offset scales) returned {got}",
+                                 {"python": snippet(src + RAISES_SRC + body + "assert bad, r\n"), "form": fname})
+                    elif u0.kind == uf.kind and len(got) == 3:
+                        den = t_dif if u0.kind == "diff" else t_abs
+                        for i in claim:
+                            p, q = den(u0.name, xs0[i]), den(sus[i].name, ys[i])
+                            if side == "left":
+                                p, q = q, p
+                            if abs(float(p - q)) <= 1e-9 * (abs(float(p)) + abs(float(q))):
+                                chk.count("cmp-borderline-skipped")
+                                continue
+                            if PYCMP[pyop](p, q) != got[i]:
+                                chk.fail(f"wrong-value|seq-compare|{side}|{u0.shape}|{uf.shape}|{sus[i].shape}",
+                                         f"{code} with a = {a_src}, b = {b_src}: element {i} returned {got[i]}; in kelvin {float(p)} vs {float(q)}",
+                                         {"python": snippet(src + RAISES_SRC + body + f"assert bad or bool(np.asarray(r).ravel()[{i}]) == {PYCMP[pyop](p, q)!r}, r\n"), "form": fname})
+                                break
+                else:
+                    outcomes[side][fname] = res
+            for side in ("right", "left"):
+                ask(f"c08.seqcmp\t{side}\t{u0.wire}\t" + ",".join(str(f2b(x)) for x in xs0) + f"\t{seqwire}", ("seqcmp", side, u0, sus, xs0, ys, outcomes[side]))
+    chk.extra["sequence_cases"] = nseq
+
     # ---- correspondence: ask the model ---------------------------------------------------------
     try:
         replies = core.Model("drv_c08").ask([m[0] for m in model])
@@ -700,6 +835,58 @@ def compare(chk, line, exp, rep):
                 chk.disagree("c08.diff", f"{expr} [{u.name}]: unyt raises {res[1]}, model {rep}")
         elif rep[0] != "ok" or rep[1].replace(":", "") != repr(res[1].units) or not fclose(core.b2f(rep[2]), vals(res[1])[0], 1e3):
             chk.disagree("c08.diff", f"{expr} [{u.name}]: unyt returns {res[1]!r}, model {rep}")
+    elif kind == "coerce":
+        _, sus, ys, outcomes = exp
+        names = [u.name for u in sus]
+        for fname, oc in outcomes.items():
+            if oc[0] == "err":
+                if rep[0] != "err" or rep[1] != oc[1]:
+                    chk.disagree("c08.coerce", f"unyt_array({names}) [{fname}]: unyt raises {oc[1]}, model {rep}")
+                continue
+            _, label, vs = oc
+            if rep[0] != "ok" or rep[1].replace(":", "") != label:
+                chk.disagree("c08.coerce", f"unyt_array({names}) [{fname}]: unyt returns {vs} [{label}], model {rep}")
+                continue
+            mv = [core.b2f(int(b)) for b in rep[2].split(",")]
+            if len(mv) != len(vs) or not all(fclose(m, v, abs(v) + abs(y) + 1e3) for m, v, y in zip(mv, vs, ys)):
+                chk.disagree("c08.coerce", f"unyt_array of {list(zip(ys, names))} [{fname}]: unyt {vs} [{label}], model {mv}")
+    elif kind == "seqbin":
+        _, op, side, u0, sus, xs0, ys, outcomes = exp
+        names = [u.name for u in sus]
+        for fname, oc in outcomes.items():
+            what = f"{u0.name} {op} sequence {names} on the {side} [{fname}]"
+            if oc[0] == "err":
+                if rep[0] != "err" or rep[1] != oc[1]:
+                    chk.disagree("c08.seq" + op, f"{what}: unyt raises {oc[1]}, model {rep}")
+                continue
+            _, label, vs = oc
+            if rep[0] != "ok" or rep[1].replace(":", "") != label:
+                chk.disagree("c08.seq" + op, f"{what}: unyt returns {vs} [{label}], model {rep}")
+                continue
+            mv = [core.b2f(int(b)) for b in rep[2].split(",")]
+            if len(mv) != len(vs) or not all(fclose(m, v, abs(v) + abs(x) + abs(y) + 1e3) for m, v, x, y in zip(mv, vs, xs0, ys)):
+                chk.disagree("c08.seq" + op, f"{what} x={xs0} y={ys}: unyt {vs} [{label}], model {mv}")
+    elif kind == "seqcmp":
+        _, side, u0, sus, xs0, ys, outcomes = exp
+        names = [u.name for u in sus]
+        for fname, oc in outcomes.items():
+            what = f"{u0.name} {fname} sequence {names} on the {side}"
+            if oc[0] == "err":
+                if rep[0] != "err" or rep[1] != oc[1]:
+                    chk.disagree("c08.seqcmp", f"{what}: unyt raises {oc[1]}, model {rep}")
+                continue
+            _, pyop, got = oc
+            if rep[0] != "ok":
+                chk.disagree("c08.seqcmp", f"{what}: unyt returns {got}, model {rep}")
+                continue
+            ps = [core.b2f(int(b)) for b in rep[1].split(",")]
+            qs = [core.b2f(int(b)) for b in rep[2].split(",")]
+            for p, q, g in zip(ps, qs, got):
+                if abs(p - q) <= 1e-9 * (abs(p) + abs(q)):
+                    continue  # rounding decides
+                if PYCMP[pyop](p, q) != g:
+                    chk.disagree("c08.seqcmp", f"{what} x={xs0} y={ys}: unyt {got}, model compares {ps} with {qs}")
+                    break
     elif kind == "conv":
         _, u, v, x, f, o, got, sc = exp
         if rep[0] != "ok" or got is None:
